@@ -8,6 +8,7 @@
   move nothing.
 -/
 import GriddleModel.Lemmas.Steps
+import GriddleModel.Lemmas.Entry
 namespace Griddle.C02
 
 /-- `insert` (new key, overwrite in the main table, or overwrite of an element still in the old
@@ -62,5 +63,46 @@ theorem reserve_unsplit_moves_nothing (c : Cfg) (t : Raw) (n : Nat) (perm : List
     cases e with
     | some e => simp only at hg; rw [hg.2]; exact ⟨rfl, rfl, Nat.zero_le _⟩
     | none => simp only at hg; exact ⟨hg.2.2.2.2.2.2.2.2.2.1, hg.2.2.2.2.2.2.2.2.1, hg.2.2.2.2.2.2.2.1⟩
+
+/-- The costliest key-adding path: `raw_entry_mut().from_key(&k)` (one hash) on an absent key,
+    then `RawVacantEntryMut::insert(k, v)` (hashes the key again), plus the carry: at most
+    `R + 2` hash computations, `R` moves, one allocation — 10 / 8 / 1 for `R = 8`. -/
+theorem raw_entry_insert_cost (c : Cfg) (hR : 0 < c.R) (m : Map) (k kid v vid add : Nat) (o : Orc)
+    (h : Inv c.R m) (habs : m.find k = none) :
+    OkOrCap (Map.entryChain c true 1 m k kid [.vacInsert true kid v vid add] o) (fun r =>
+      r.2.cost.hashes ≤ c.R + 2 ∧ r.2.cost.moved ≤ c.R ∧ r.2.cost.allocs ≤ 1) := by
+  unfold Map.entryChain Map.lookupState
+  simp only [habs, Map.chainLoop, Map.chainStep, if_true, Bool.false_eq_true, if_false, Option.getD]
+  have hfresh : k ∉ keysOf m.ents := (find_none_iff h k).1 habs
+  have hs := Raw.insert_spec c hR m { k := k, kid := kid, v := v + add, vid := vid } o.hits o.perm h hfresh
+  generalize Raw.insert c m { k := k, kid := kid, v := v + add, vid := vid } o.hits o.perm = res at hs ⊢
+  cases res with
+  | error f => simpa [OkOrCap] using hs
+  | ok r =>
+    obtain ⟨m', hh, cost⟩ := r
+    simp only [OkOrCap] at hs ⊢
+    obtain ⟨_, _, h3, h4, h5, _⟩ := hs
+    simp only [if_true, Bool.false_eq_true, if_false, Cost.add_hashes, Cost.add_moved, Cost.add_allocs]
+    refine ⟨by omega, by omega, by omega⟩
+
+/-- `entry(k).or_insert(v)` / `VacantEntry::insert` on an absent key: the key is hashed once
+    (the entry keeps the hash), so at most `R + 1` hashes. -/
+theorem entry_insert_cost (c : Cfg) (hR : 0 < c.R) (m : Map) (k kid v vid add : Nat) (o : Orc)
+    (h : Inv c.R m) (habs : m.find k = none) :
+    OkOrCap (Map.entryChain c false 1 m k kid [.vacInsert false 0 v vid add] o) (fun r =>
+      r.2.cost.hashes ≤ c.R + 1 ∧ r.2.cost.moved ≤ c.R ∧ r.2.cost.allocs ≤ 1) := by
+  unfold Map.entryChain Map.lookupState
+  simp only [habs, Map.chainLoop, Map.chainStep, if_true, Bool.false_eq_true, if_false, Option.getD]
+  have hfresh : k ∉ keysOf m.ents := (find_none_iff h k).1 habs
+  have hs := Raw.insert_spec c hR m { k := k, kid := kid, v := v + add, vid := vid } o.hits o.perm h hfresh
+  generalize Raw.insert c m { k := k, kid := kid, v := v + add, vid := vid } o.hits o.perm = res at hs ⊢
+  cases res with
+  | error f => simpa [OkOrCap] using hs
+  | ok r =>
+    obtain ⟨m', hh, cost⟩ := r
+    simp only [OkOrCap] at hs ⊢
+    obtain ⟨_, _, h3, h4, h5, _⟩ := hs
+    simp only [Cost.add_hashes, Cost.add_moved, Cost.add_allocs]
+    refine ⟨by omega, by omega, by omega⟩
 
 end Griddle.C02
